@@ -740,6 +740,8 @@ class World:
             raise Skip()
         c = self.ctx.pop()
         pre = self.pre_op(None, None, None, "exit", False, False)
+        if st.get("fault") is not None:
+            return self.faulted_exit(st, c)
         if c["kind"] == "obj":
             ob = self.objs[c["oid"]]
             res = self.call(lambda: ob.o.buffered.__exit__(None, None, None))
@@ -755,6 +757,56 @@ class World:
                 flushed = [ob for ob in self.objs if ob.cls is cls and ob.alive and ob.depth == 0]
         self.stat("ctx_exit")
         self.after_exit(c, cls, flushed, res, pre)
+
+    def faulted_exit(self, st, c):
+        """Fault-injecting configuration: an I/O error hits the flush of a context exit. The exit may raise and buffered
+        data of the affected file may be lost (never wrong data elsewhere); afterwards the model is re-synchronised
+        from the backend and the bookkeeping oracles (buffer size, capacity, locks) must hold as usual."""
+        self.seams.arm({"at": st["fault"]["at"], "exc": tuple(st["fault"]["exc"])})
+        try:
+            if c["kind"] == "obj":
+                ob = self.objs[c["oid"]]
+                res = self.call(lambda: ob.o.buffered.__exit__(None, None, None))
+                ob.depth -= 1
+                cls = ob.cls
+            else:
+                cls = c["cls"]
+                res = self.call(lambda: c["cm"].__exit__(None, None, None))
+                self.backend_depth[cls] -= 1
+        finally:
+            fired = bool(self.seams.fired)
+            del self.seams.fired[:]
+            self.seams.disarm()
+        if fired:
+            self.probe("fault_fired_in_flush")
+            self.stat("fault_io_error")
+        if isinstance(res, M.Raised) and not fired:
+            raise Violation("context_error", f"leaving {c['kind']} context raised {res!r} although no fault fired")
+        if isinstance(res, M.Raised) and not isinstance(res.exc, (OSError, self.ns.errors.BufferedError)):
+            raise Violation("context_error", f"leaving {c['kind']} context with an injected OSError raised {res!r}")
+        # re-synchronise: files of objects that are no longer buffered hold whatever reached the disk
+        for r in self.res:
+            if not any(self.is_buffered(x) for x in self.objs if x.rid == r.rid and x.alive and hasattr(x.o, "buffered")):
+                obs = self.observe(r)
+                if obs is not ABSENT and not (isinstance(obs, tuple) and obs and obs[0] == "<unparsable>"):
+                    exp_ok = (r.disk is not None and same(obs, r.disk)) or same(obs, r.model)
+                    if not exp_ok:
+                        raise Violation("wrong_data_after_fault", f"after a failed flush resource {r.rid} holds {jsonable(obs)!r}, neither the "
+                                        f"previous {jsonable(r.disk)!r} nor the buffered content {jsonable(r.model)!r}")
+                    r.model, r.disk, r.exists = deep(obs), deep(obs), True
+                elif obs is ABSENT:
+                    r.model, r.disk = ({} if r.kind == "dict" else []), None
+                r.bufstate, r.frozen = None, None
+                for h in self.handles:
+                    if h is not None and h.path and self.objs[h.oid].rid == r.rid:
+                        h.state = "dropped"
+        hook = getattr(self, "after_faulted_exit", None)
+        if hook:
+            hook(c, cls)
+        if "locks" in self.oracles:
+            self.check_locks("faulted context exit")
+        if "bufsize" in self.oracles:
+            self.check_bufsize("after a context exit with an injected I/O error")
 
     def st_enter_group(self, st):
         """Per-object contexts of several objects entered back-to-back (a common buffered state)."""
